@@ -219,8 +219,11 @@ SpreadParts(o, W, p, x, s, UL) ==
         inc == [q \in P |-> Inc(o, cfg, p, s, Loc(W, q))]
         dom == [q \in P |-> TDom(cfg, Loc(W, q), k)]
         sure == {q \in P : q \in R \/ Carries(q, s, p)}
-        lo(d) == Cardinality({q \in sure : dom[q] = {d} /\ inc[q].lo})
-        hi(d) == Cardinality({q \in P : d \in dom[q] /\ inc[q].hi})
+        \* a pod that counts for sure occupies EVERY domain its node may end up in (count side) and is certain only in a
+        \* collapsed one (minimum side); a matching batch pod that does not carry the constraint is ignored on the count
+        \* side and possibly anywhere on the minimum side
+        lo(d) == Cardinality({q \in sure : d \in dom[q] /\ inc[q].lo})
+        hi(d) == Cardinality({q \in P : inc[q].hi /\ (IF q \in sure THEN dom[q] = {d} ELSE d \in dom[q])})
         Dx == TDom(cfg, x, k)
         \* hostname: every domain is one node; the eligible ones are the nodes that certainly take part (Kubernetes has no
         \* notion of "a node that could be created": Karpenter assuming a minimum of 0 is stricter and accepted)
@@ -232,6 +235,7 @@ SpreadParts(o, W, p, x, s, UL) ==
         mn == IF o.minDomains /\ s.minDomains > 0 /\ Cardinality(D) < s.minDomains THEN 0 ELSE MinS({hi(e) : e \in D})
     IN [haskey |-> Dx # {}, dx |-> Dx, d |-> D, min |-> mn, self |-> self,
         cnt |-> [d \in Dx |-> lo(d)], hi |-> [e \in D |-> hi(e)],
+        okd |-> [d \in Dx |-> lo(d) + self - mn <= s.maxSkew + o.slack],
         ok |-> Dx # {} /\ \A d \in Dx : lo(d) + self - mn <= s.maxSkew + o.slack]
 SpreadOK(o, W, p, x, s, U) == SpreadParts(o, W, p, x, s, U).ok
 DnsIdx(p) == {i \in DOMAIN p.spread : p.spread[i].when = "DoNotSchedule"}
@@ -261,14 +265,15 @@ EndAffTermOK(o, W, p, t) ==
                     /\ (\E v \in TDom(cfg, x, k) : PodAllowsKey(cfg, q, k, v))
     IN a.haskey /\ (a.matched \/ (a.self /\ ~reachRunning /\ ~\E q \in PlacedPods(W) : rival(q)))
 EndAffBad(o, W) == UNION {{<<PKey(p), i>> : i \in {j \in DOMAIN p.aff : ~EndAffTermOK(o, W, p, p.aff[j])}} : p \in PlacedPods(W)}
-(* spread without order: SOME carrier of the constraint placed in the same domain in this pass could have been admitted *)
-(* last (the one that really was, was admitted with counts no larger and a minimum no smaller than the final ones)      *)
+(* spread without order: for every domain d the pod may be in, SOME carrier of the constraint placed (possibly) in d in   *)
+(* this pass could have been admitted last (the one that really was, was admitted with a count of d no smaller and a    *)
+(* minimum no larger than the final ones)                                                                               *)
 EndSpreadOK(o, W, p, s, Uof(_, _)) ==
     LET cfg == W.cfg
         Dp == TDom(cfg, Loc(W, p), s.key)
-        C == {q \in PlacedPods(W) : Carries(q, s, p) /\ TDom(cfg, Loc(W, q), s.key) = Dp}
-    IN Dp # {} /\ \E q \in C : \E i \in CarriesIdx(q, s, p) :
-                      SpreadOK(o, Without(W, q), q, Loc(W, q), q.spread[i], Uof(q, q.spread[i]))
+        C(d) == {q \in PlacedPods(W) : Carries(q, s, p) /\ d \in TDom(cfg, Loc(W, q), s.key)}
+    IN Dp # {} /\ \A d \in Dp : \E q \in C(d) : \E i \in CarriesIdx(q, s, p) :
+                      SpreadParts(o, Without(W, q), q, Loc(W, q), q.spread[i], Uof(q, q.spread[i])).okd[d]
 EndSpreadBad(o, W, Uof(_, _)) ==
     UNION {{<<PKey(p), i>> : i \in {j \in DnsIdx(p) : ~EndSpreadOK(o, W, p, p.spread[j], Uof)}} : p \in PlacedPods(W)}
 
